@@ -140,6 +140,14 @@ class FileModel:
             header(a[0], load_all=True)
         elif name in ('get_tracefield_values', 'em_attributes'):
             add(['field_array', a[0]])
+        elif name in ('tracefield_sweep', 'em_attributes_sweep'):
+            out['slice_expr'] = True
+            for f in battery.ALL_FIELDS:
+                add(['field_array', f])
+        elif name == 'header_sweep':
+            out['slice_expr'] = True
+            for t in a[0]:
+                header(t)
         elif name == 'em_iline':
             if isinstance(a[0], list):
                 out['slice_expr'] = True
